@@ -188,3 +188,23 @@ def tlaps_check(module_path, workdir, timeout=600):
     if m:
         return {"status": "failed", "failed": int(m.group(1)), "obligations": int(m.group(2))}
     return {"status": "unavailable"}
+
+
+def generate_inputs(module, seed, workdir, timeout=600):
+    """spec -> impl: let TLC evaluate spec/gen/<module>.tla (a constant-level construction checked by its own ASSUMEs
+    against the L2 module) and return the list of cases it prints as <<"GEN", json>>."""
+    fresh_dir(workdir)
+    src = os.path.join(SPEC, "gen", module + ".tla")
+    shutil.copy(src, os.path.join(workdir, module + ".tla"))
+    cfg = os.path.join(workdir, module + ".cfg")
+    with open(cfg, "w") as f:
+        f.write(f"SPECIFICATION Spec\nCONSTANT GenSeed = {int(seed) % 100000}\nCHECK_DEADLOCK FALSE\n")
+    cmd = java_cmd("3g", os.path.join(workdir, "jtmp")) + ["-workers", "1", "-metadir", os.path.join(workdir, "md"), "-noGenerateSpecTE",
+                                                          "-config", cfg, os.path.join(workdir, module + ".tla")]
+    p = run(["timeout", str(timeout)] + cmd, cwd=workdir, check=False, timeout=timeout + 30)
+    out = p.stdout or ""
+    m = re.search(r'<<"GEN", "(.*?)">>', out, re.S)
+    if m is None or "No error has been found" not in out:
+        raise ToolError(f"input generation with {module} failed:\n{out[-3000:]}")
+    return json.loads(m.group(1).encode().decode("unicode_escape"))
+
